@@ -32,6 +32,11 @@ def retro_screen_kwargs(rng, flavour=None):
     return kw, flavour
 
 
+# plain fractions, fractions whose product with a plate size is tiny but positive, and fractions whose product with a
+# small size lies a hair above / below an integer
+HOLDOUT_FRACTIONS = [0.0, 1.0, 0.07, 0.1, 0.3, 0.5, 1.0 / 3.0, 0.7, 1e-10, 1e-12, 5e-324, 0.5 + 2e-10, 0.1 + 1e-11, 0.25 - 1e-12, 1.0 - 1e-12]
+
+
 def make_operation(rng, R, screen, only=None):
     """Pick a shipped operation with random (possibly useless) parameters.
     Returns (kind, name, params, callable(screen, rng) -> result)."""
@@ -82,10 +87,10 @@ def make_operation(rng, R, screen, only=None):
         s = R.BatchieEnsemblePlateSmoother(**p)
         return "smoother", name, p, s.smooth_plates
     if name == "holdout_balanced":
-        f = float(rng.choice([0.0, 1.0, 0.07, 0.1, 0.3, 0.5, float(rng.random())]))
+        f = float(rng.choice(HOLDOUT_FRACTIONS + [float(rng.random())] * 3))
         return "holdout", name, dict(fraction=f), lambda scr, r: R.create_plate_balanced_holdout_set_among_masked_plates(scr, f, r)
     if name == "holdout_random":
-        f = float(rng.choice([0.0, 1.0, 0.07, 0.1, 0.3, 0.5, float(rng.random())]))
+        f = float(rng.choice(HOLDOUT_FRACTIONS + [float(rng.random())] * 3))
         return "holdout", name, dict(fraction=f), lambda scr, r: R.create_random_holdout(scr, f, r)
     raise KeyError(name)
 
